@@ -1260,7 +1260,14 @@ impl FatVolume {
             .map_err(Error::DeviceError)?;
 
         let start = usize::try_from(entry.entry_offset).map_err(|_| Error::ConversionError)?;
-        block[start..start + 32].copy_from_slice(&entry.serialize(fat_type)[..]);
+        // Only overwrite the fields this crate maintains (name, attributes,
+        // first cluster, write time, size). The creation time including its
+        // 10 ms part, the last-access date and the reserved byte were set by
+        // whoever created the entry and must survive an update.
+        let serialized = entry.serialize(fat_type);
+        let slot = &mut block[start..start + OnDiskDirEntry::LEN];
+        slot[0..12].copy_from_slice(&serialized[0..12]);
+        slot[20..32].copy_from_slice(&serialized[20..32]);
 
         trace!("Updating directory");
         block_cache.write_back().map_err(Error::DeviceError)?;
